@@ -326,6 +326,12 @@ pub fn frames_for(cookies: &HashMap<crate::model::FlowKey, u32>, thorough: bool)
         v.push((format!("foreign-dst-{}", v6), vec![], g.tcp(1, 0, F_SYN, b"")));
         v.push((format!("foreign-dst-echo-{}", v6), vec![], g.icmp_echo(1, 1, b"x")));
         v.push((format!("foreign-dst-udp-{}", v6), vec![], g.udp(b"GET / HTTP/1.1\r\n\r\n")));
+        // both filters at once: denied source AND foreign destination
+        let mut h = g.clone();
+        h.cip = if v6 { deny6() } else { deny4() };
+        v.push((format!("denied-and-foreign-syn-{}", v6), vec![], h.tcp(1, 0, F_SYN, b"")));
+        v.push((format!("denied-and-foreign-echo-{}", v6), vec![], h.icmp_echo(1, 1, b"x")));
+        v.push((format!("denied-and-foreign-udp-{}", v6), vec![], h.udp(&stun_magic(&[], &ID12))));
     }
     // source MAC alphabet (own MAC, broadcast, multicast, zero) on frames that are answered
     for (n, smac) in [("src-own-mac", crate::driver::MAC_SRV), ("src-bcast", [0xff; 6]), ("src-mcast", [0x01, 0, 0x5e, 0, 0, 1]), ("src-zero", [0; 6])] {
@@ -371,7 +377,7 @@ pub fn frames_for(cookies: &HashMap<crate::model::FlowKey, u32>, thorough: bool)
 }
 
 pub fn run(rep: &mut Report, thorough: bool) {
-    rep.rule = "the base corpus with every truncation, every length-field / protocol-selector value of the L2-L4 headers (thorough: also of the application payloads), all ICMP / ICMPv6 types with code 0 and 1, all 256 IP protocols / next headers, ARP operations, foreign MAC, denied source, foreign destination, ND foreign target and non-zero code; under both log formats, with and without address lists; the real logger's lines for each frame are parsed (console: fixed tab arity per protocol; logfmt: key=value tokens with known keys) and compared with the reference event trace: for each layer reached exactly one recv then exactly one terminal event, nested from Ethernet inwards, terminal = send iff a reply frame came back, printed addresses and ports = the frame's".into();
+    rep.rule = "the base corpus with every truncation, every length-field / protocol-selector value of the L2-L4 headers (thorough: also of the application payloads), all ICMP / ICMPv6 types with code 0 and 1, all 256 IP protocols / next headers, ARP operations, foreign MAC, denied source, foreign destination, ND foreign target and non-zero code; under both log formats, with and without address lists; the real logger's lines for each frame are parsed (console: fixed tab arity per protocol; logfmt: key=value tokens with known keys) and compared with the reference event trace: for each layer reached exactly one recv then exactly one terminal event, nested from Ethernet inwards, terminal = send iff a reply frame came back, printed addresses and ports = the frame's; ADDED LATER: source-MAC alphabet, replies beyond 1500 bytes, maximal printed forms (uncompressible IPv6 addresses, 5-digit ports), and every sequence of length <= 2 (thorough 3) over the TCP alphabet of one flow plus noise with the events of every frame checked".into();
     rep.assumptions = vec![
         "events are delimited per frame by the driver's record lines (hook H1)".into(),
         "a layer is 'reached' when the layer below accepted the frame and the layer's minimal header is present".into(),
